@@ -4,7 +4,8 @@
 
 From Coq Require Import List NArith PArith Bool Arith Lia FMapPositive.
 From OxiVerif Require Import DD.Table DD.TableExtra DD.TableProofs DD.Build DD.BuildProofs DD.Apply
-  DD.FamSpec DD.FamSpecProofs DD.ZbddOps DD.ZbddOpsProofs DD.ZbddSubsetProofs DD.ZbddSoundProofs.
+  DD.FamSpec DD.FamSpecProofs DD.ZbddOps DD.ZbddOpsProofs DD.ZbddSubsetProofs DD.ZbddSoundProofs
+  DD.ZbddVars DD.ZbddVarsProofs.
 Import ListNotations.
 
 (** an operand order (by node id), standing for the address order of the code *)
@@ -128,4 +129,15 @@ Example ex_z4_views :
   fam_of ex_z4 (RN 3) = fam_of ex_z3 (RN 3) /\
   semz ex_z4 (S (nlevels ex_z4)) 0 (RN 3) (fun l => match l with 1 => 0 | _ => 1 end) = Some true /\
   semz ex_z4 (S (nlevels ex_z4)) 0 (RN 3) (fun l => match l with 1 | 3 => 0 | _ => 1 end) = Some false.
+Proof. vm_compute. repeat split; reflexivity. Qed.
+
+(** add_vars(1) on [ex_z3] by the model: four levels, chain nodes 4..7, old families kept *)
+Example ex_z3_add_vars :
+  match zadd_vars ex_z3 1 with
+  | Some (s, ch) =>
+    zbdd_ok_b s = true /\ nlevels s = 4 /\ ch = [RN 7; RN 6; RN 5; RN 4; RT 1%N] /\
+    fam_of s (RN 3) = fam_of ex_z3 (RN 3) /\
+    fam_of s (RN 5) = Some [[2; 3]; [2]; [3]; []] /\ s_v2l s = [1; 2; 0; 3]
+  | None => False
+  end.
 Proof. vm_compute. repeat split; reflexivity. Qed.
